@@ -151,12 +151,13 @@ def run(ck):
     nsched = 0
 
     def sched_run(args):
-        n, pre, sched, k = args
+        n, pre, sched, k = args[:4]
+        absent_dir = len(args) > 4 and args[4]
         cnt[0] += 1
         w = os.path.join(ck.workdir, 'i%d' % (cnt[0] % 4096))
         shutil.rmtree(w, ignore_errors=True)
         os.makedirs(w)
-        target = os.path.join(w, 'log')
+        target = os.path.join(w, 'log') if not absent_dir else os.path.join(w, 'no-such-dir-yet', 'log')
         open(os.path.join(w, 'snoopy.ini'), 'w').write('[snoopy]\nmessage_format = %%{env:M}\ndatasource_message_max_length = 1048575\nlog_message_max_length = 1048575\noutput = file:%s\n' % target)
         if pre is not None:
             open(target, 'wb').write(pre)
@@ -222,6 +223,29 @@ def run(ck):
                     if bad:
                         ck.violation('C17:%s:writers=%d:points_per_writer=%d' % ('+'.join(bad), k, npts), {'record_size': n, 'writers': k, 'schedule': sched, 'steps': rep.get('steps'), 'failed': bad,
                                      'file_len': None if after is None else len(after), 'replay': 'sysxs -s %s' % ','.join(map(str, sched))})
+    # the log directory does not exist yet: whatever the writers do about it, the file they leave behind must not depend on how their system
+    # calls interleave (sequential = concurrent, as a multiset of records)
+    for n in (1, 5000):
+        base, _ = sched_run((n, None, [], 1, True))
+        npts = base.get('nsteps', 0)
+        if not npts or npts > 6:
+            continue
+        scheds = sorted(set(itertools.permutations([i for i in range(2) for _ in range(npts)])))
+        results = pmap(lambda s: sched_run((n, None, list(s), 2, True)), scheds)
+        def multiset(after):
+            return None if after is None else tuple(sorted(after.split(b'\n')))
+        ref = multiset(results[0][1])     # first schedule = writer 0 completely, then writer 1
+        for sched, (rep, after) in zip(scheds, results):
+            evals += 1
+            nsched += 1
+            if rep.get('error'):
+                ck.violation('C17:harness:absent_dir:n=%d' % n, {'schedule': sched, 'report': rep})
+                continue
+            # (a writer that takes fewer steps than planned because of what the other one did is no harness problem here: the result is judged)
+            outcomes.add(('absent_dir', n, multiset(after) == ref, after is None))
+            if multiset(after) != ref:
+                ck.violation('C17:records_lost_depending_on_schedule:log_directory_absent:points_per_writer=%d' % npts, {'record_size': n, 'schedule': sched, 'steps': rep.get('steps'),
+                             'sequential_result_len': None if results[0][1] is None else len(results[0][1]), 'this_result_len': None if after is None else len(after)})
     ck.assumptions += ['atomicity of one write/writev on an O_APPEND descriptor of a local regular file is trusted (POSIX/Linux)']
     ck.coverage(states=len(outcomes), transitions=evals, traces_validated_against_impl=evals, evaluations=evals, distinct_nontrivial=len(outcomes), record_sizes_traced=len(jobs), schedules_executed=nsched,
                 call_patterns=[{'output': o, 'pattern': '>'.join(p), 'min': min(ns), 'max': max(ns)} for (o, p), ns in patterns.items()],
